@@ -3068,8 +3068,9 @@ void SGXMLScanner::scanReset(const InputSource& src)
     //
     fSchemaInfoList->removeAll ();
 
-    // fModel may need updating, as fGrammarResolver could have cleaned it
-    if(fModel && getPSVIHandler())
+    // fModel may need updating, as fGrammarResolver could have cleaned it; with a PSVI handler it is needed even
+    // when no grammar has been loaded yet (this scanner's grammar type is always schema)
+    if(getPSVIHandler())
         fModel = fGrammarResolver->getXSModel();
 
     // Create dummy schema grammar
